@@ -18,7 +18,7 @@ from . import common, signing
 
 ID = "C19"
 RULE = ("root template: all 7 non-empty subsets of {radio, application, top} x {default, custom} MPI vendor/class names "
-        "x version settings {none, VERSION file -> DEFAULT_* (4 file variants), APP_ROOT_SEQ_NUM/APP_ROOT_VERSION (5 "
+        "x version settings {none, VERSION file -> DEFAULT_* (8 file variants incl. empty / partial files from which no version can be derived), APP_ROOT_SEQ_NUM/APP_ROOT_VERSION (5 "
         "value variants incl. '2', '2.0', pre-release)}; top template: its fixed image set x version settings "
         "(NORDIC_TOP_*); each configuration rendered through ncs.build.read_version_file/render_template and created "
         "with freshly sampled child envelopes (generated descriptions, some signed) k times; a sample through the "
@@ -38,6 +38,11 @@ VERSION_FILES = [
     "VERSION_MAJOR = 0\nVERSION_MINOR = 0\nPATCHLEVEL = 0\n",
     "VERSION_MAJOR = 255\nVERSION_MINOR = 255\nPATCHLEVEL = 255\nVERSION_TWEAK = 255\nEXTRAVERSION = dev\n",
     "VERSION_MAJOR = 3\nVERSION_MINOR = 9\nPATCHLEVEL = 99\nVERSION_TWEAK = 0\nEXTRAVERSION =\n",
+    # files from which no default version can be derived: rendering and creation must still succeed
+    "",
+    "VERSION_MAJOR = 1\nVERSION_MINOR = 2\n",
+    "APP_ROOT_SEQ_NUM = 5\nNORDIC_TOP_SEQ_NUM = 6\n",
+    "VERSION_MAJOR = 1\nVERSION_MINOR = 2\nPATCHLEVEL = 3\nEXTRAVERSION = RC1\n",
 ]
 EXPLICIT = [("7", "2.0.1"), ("1", "2"), ("4294967295", "2.0"), ("16909056", "1.2.3-rc.4"), ("0", "1.0.0-alpha")]
 CUSTOM = {"SB_CONFIG_SUIT_MPI_ROOT_VENDOR_NAME": "acme.org", "SB_CONFIG_SUIT_MPI_ROOT_CLASS_NAME": "acme_root",
